@@ -118,8 +118,8 @@ func (m *imp) partialX(e ast.Node) bool {
 
 // which of the shrinker's state does the selector read
 func (m *imp) viewRead(x *ast.SelectorExpr) (effect string, ty gty, ok bool) {
-	if m.recvTy != "shrinker" {
-		return "", "", false
+	if m.recvTy != "shrinker" || m.ck {
+		return "", "", false // (in check mode the shrinker's fields are variables: accept itself is being translated)
 	}
 	switch exprText(m.p.fset, x) {
 	case m.recv + ".rec.data":
